@@ -25,6 +25,45 @@ HISTORY = {
     "C17": ("strengthened", "first run missed it (needs a non-differentiable argument before the selected index on the re-evaluation path); added jac/hess newparams/nondiff_args_first"),
     "C18": ("as built", "patch regenerated after the fix f9b18ed touched the same lines"),
     "C20": ("as built", ""),
+    # ---- round 2 (each agent was told which location round 1 had used and asked for a different mechanism)
+    "C01b": ("strengthened", "missed (needs batched shifts E with several columns in a Krylov method); added krylov/cg/scalar/.../Ebatch/c2 (A = g*I converges in one iteration for every shift, so the layout of E is decided symbolically)"),
+    "C02b": ("strengthened", "missed by C02 (needs a complex composed operator with a dense part); the C11 check caught it as built; added complex add/sub/add_dense configurations to C02"),
+    "C03b": ("strengthened", "missed: the change introduces float(tensor) on a symbolic value, which ended those paths inconclusive; the root-solver modules now get a symbolic float pass-through, so the clamp f_tol=max(f_tol, eps*|f(y0)|) is explored with |f(y0)| unbounded"),
+    "C04b": ("strengthened", "missed (needs an iterative backward solver on a non-symmetric Jacobian); added ift2d/fixed0/bck_cg (cg run to exact convergence, symbolic cotangent) and, in C01, normal-equation configurations on fixed non-normal matrices"),
+    "C05b": ("NOT CAUGHT", "davidson is outside the bound of the C05 check (iterative; n >= 5 with n % neig != 0 needed); declined rather than adding a concrete test"),
+    "C06b": ("strengthened", "missed (needs svd of a wide matrix-free operator); added svd/exacteig/wide2x3/{mvonly,mvrmv}; the C02 check also reports it through the new second-order mv-only configuration"),
+    "C07b": ("strengthened", "missed (the controller scenarios replaced the error norm and never observed the tolerance scale); added controller_scale: one real _single_step from an arbitrary symbolic state, raw error symbolic, accept <=> err < atol + rtol*max(|y_start|,|y_new|)"),
+    "C08b": ("strengthened", "missed (needs two calls in one process and observation of the options the backward integration receives); added option_flow/sequence with a recording caller-supplied method"),
+    "C09b": ("strengthened", "missed (needs make_sibling of three or more methods); added representation multi_sibling3"),
+    "C10b": ("strengthened", "missed (needs the alias pattern a,a,b,c,b among an operator's tensors); added the symbolic-identity unit unique_params (all alias patterns of n <= 5 tensors, z3 decides)"),
+    "C11b": ("strengthened", "missed (needs an operand with fewer, non-singleton batch dimensions than the operator); added batchA22_x2 configurations"),
+    "C12b": ("strengthened", "missed (needs limits given as float32 / int64 tensors with a float64 integrand); added limit_dtypes (decided by the dtype tag in the symbolic run, by the value in the float64 replay)"),
+    "C13b": ("as built", ""),
+    "C14b": ("strengthened", "missed (needs the gradient w.r.t. query points outside the range); added extrap_grad"),
+    "C15b": ("strengthened", "missed (needs a size-1 batch dimension in an inner position); shapes/dims generalised - this also exposed two genuine defects of SQuad.integrate (negative dims, >=4-D samples), now fixed"),
+    "C16b": ("strengthened", "missed (needs a custom step that returns the same tensor object every time); added buffered_step"),
+    "C17b": ("as built", "caught by the nondiff_args_first configuration added after round 1"),
+    "C18b": ("strengthened", "missed (needs bck_options with another method for solve_ivp); added option_flow/bck_options (also registered under C08)"),
+    "C20b": ("as built", ""),
+    # ---- round 3 (told about both earlier locations)
+    "C01c": ("as built", "krylov/cg control claims: a right-hand side between atol and rtol returned zeros silently"),
+    "C02c": ("strengthened", "missed (needs an input that does not require grad next to a differentiable E); added requires-grad patterns B_constant / A_constant / E_constant / AB_constant"),
+    "C03c": ("NOT CAUGHT", "needs a user function that returns NaN outside its domain; the engine works over exact reals (NaN only as a constant), an uninterpreted function cannot return NaN: outside the technique's reach as built"),
+    "C04c": ("strengthened", "the solver found the counterexample at once (cotangent entries <= 1e-8 in magnitude), but the float64 replay compared with an absolute floor and did not confirm it (reported as harness error, exit 2); the replay now takes a second, purely relative look"),
+    "C05c": ("NOT CAUGHT", "davidson (with v_init='eye' and M) is outside the bound of the C05 check"),
+    "C06c": ("NOT CAUGHT", "needs second-order differentiation w.r.t. a non-linearly parametrised matrix-free M; second order with M is outside the bound stated for C06"),
+    "C07c": ("strengthened", "missed (needs a float32 solve before a float64 one: class-level tableau state); added tableau_state"),
+    "C09c": ("strengthened", "missed by the four functionals checked so far (needs a functional that wraps the method in a sibling of its own); added equilibrium / quad_tuple / hess over the aliased-tensor representations"),
+    "C10c": ("as built", "crash/equilibrium/editable (aliased tensors) reports the module changed after a complete run"),
+    "C11c": ("strengthened", "missed (needs the product of two Hermitian-flagged operators that do not commute); added matmul_herm kinds"),
+    "C12c": ("strengthened", "missed (needs an integrand that returns an existing tensor, e.g. its stored coefficient); added constant_integrand (value and caller's tensor unchanged)"),
+    "C13c": ("strengthened", "missed (needs a tuple-valued integrand given as a method of an object that holds a differentiable tensor); added tuple_module; the C09 quad_tuple functional reports it too"),
+    "C14c": ("as built", "3-knot periodic splines on non-uniform grids"),
+    "C15c": ("strengthened", "missed (needs the documented default method together with a requested bc_type); added default_method configurations"),
+    "C16c": ("strengthened", "missed (tuple-valued f as a method of a module holding a differentiable tensor); added tuple_module"),
+    "C17c": ("strengthened", "reported only indirectly (an exception in another scenario); added the idxs=0 / empty-selection validation claims"),
+    "C18c": ("strengthened", "missed (needs a falsy callable or the empty name); added falsy_callable for six entry points and the empty name to every names scenario"),
+    "C20c": ("as built", "symbolic-identity unit on _get_unique_idxs"),
 }
 
 
@@ -72,7 +111,13 @@ for sid in sorted(os.listdir(ROOT)):
     first = (ver.get("violations_sample") or ["-"])[0].replace(".json", "")
     rows.append("| %s | %s | %s | %s | %s | %s | %s |" % (
         sid, ", ".join(os.path.basename(f) for f in files), "yes" if meta["detected_by_quick_check"] else "NO",
-        ver.get("violation_lines"), ver.get("quick_check_wall_s"), hist[0], (hist[1] or first)[:170]))
-print("| seed | file changed | quick check reports VIOLATION | lines | wall s | check | note / first violated claim |")
-print("|------|--------------|------|------|------|------|------|")
-print("\n".join(rows))
+        ver.get("violation_lines"), ver.get("quick_check_wall_s"), hist[0], (hist[1] or first)[:400]))
+table = "| seed | file changed | quick check reports VIOLATION | lines | wall s | check | note / first violated claim |\n" \
+        "|------|--------------|------|------|------|------|------|\n" + "\n".join(rows) + "\n"
+print(table)
+dp = "/verif/DESIGN.md"
+d = open(dp).read()
+b, e = "<!-- SEED_TABLE_BEGIN -->\n", "<!-- SEED_TABLE_END -->"
+if b in d and e in d:
+    d = d[:d.index(b) + len(b)] + table + d[d.index(e):]
+    open(dp, "w").write(d)
